@@ -351,7 +351,7 @@ pub fn run(tier: &str, seed: u64) -> i32 {
         n,
         || {
             (
-                prop_oneof![1 => gen::rule(gen::RuleOpts::default()), 1 => gen::rule_focus(true)],
+                prop_oneof![3 => gen::rule(gen::RuleOpts::default()), 3 => gen::rule_focus(true), 1 => gen::rule_nested_focus(true)],
                 prop::collection::vec(gen::doc_recipe(), 6),
             )
         },
